@@ -30,8 +30,8 @@ Revokes == TRUE
 VARIABLES m, obs, deal, ores
 P == INSTANCE Play
 
-VARIABLES i, skip, nrej, objs, odeal
-tvars == <<m, obs, deal, ores, i, skip, nrej, objs, odeal>>
+VARIABLES i, skip, nrej, objs, odeal, seen
+tvars == <<m, obs, deal, ores, i, skip, nrej, objs, odeal, seen>>
 
 Null == [none |-> TRUE]
 IsSame(e) == "same" \in DOMAIN e /\ e.same
@@ -67,15 +67,24 @@ LawOK(s, dl) ==
   /\ s.mode = "hands" =>
         \A p \in Seats : s.hands[p] = LawHolding(dl, s.decl, s.trump, pl, p)
 
-TInit == /\ i = 1 /\ skip = FALSE /\ nrej = 0
+FailSet(checks) == {checks[k][1] : k \in {j \in 1..Len(checks) : ~checks[j][2]}}
+
+TInit == /\ i = 1 /\ skip = FALSE /\ nrej = 0 /\ seen = {}
          /\ objs = [o \in 0..5 |-> Null] /\ odeal = Null
          /\ m = Null /\ obs = Null /\ deal = Null /\ ores = Null
 
 Bad(e, clause) == /\ Reject(e.tid, i, clause)
                   /\ skip' = TRUE /\ nrej' = nrej + 1
-                  /\ UNCHANGED <<objs, odeal>>
+                  /\ UNCHANGED <<objs, odeal, seen>>
 Good(newobjs) == /\ skip' = FALSE /\ nrej' = nrej /\ objs' = newobjs
-                 /\ UNCHANGED odeal
+                 /\ UNCHANGED <<odeal, seen>>
+\* the call was accepted / refused as specified but the state shown (or an
+\* answer) differs: report the clauses not yet reported for this trace and go
+\* on with the specification's state, so that later consequences are judged
+Soft(e, clause, fs, newobjs) ==
+  /\ IF fs \subseteq seen THEN nrej' = nrej
+     ELSE Reject(e.tid, i, clause) /\ nrej' = nrej + 1
+  /\ seen' = seen \cup fs /\ skip' = FALSE /\ objs' = newobjs /\ UNCHANGED odeal
 
 FourPlays(s0, cards) ==
   LET s1 == P!PStep(s0, s0.active, cards[1]).st
@@ -93,7 +102,7 @@ Consume ==
          fresh == NewTrace(e)
          cur == IF fresh THEN [o \in 0..5 |-> Null] ELSE objs
      IN
-     IF (~fresh) /\ skip THEN UNCHANGED <<skip, nrej, objs, odeal>>
+     IF (~fresh) /\ skip THEN UNCHANGED <<skip, nrej, objs, odeal, seen>>
      ELSE IF e.ev = "new" THEN
         LET dl == SeqToDeal(e.deal)
             s0 == P!InitPlay(e.mode, e.me, dl, e.trump, e.decl)
@@ -101,9 +110,10 @@ Consume ==
         IN IF c = ""
            THEN /\ skip' = FALSE /\ nrej' = nrej
                 /\ objs' = [cur EXCEPT ![e.o] = s0] /\ odeal' = dl
+                /\ seen' = IF fresh THEN {} ELSE seen
            ELSE /\ Reject(e.tid, i, "new:o=" \o e.mode \o ":fail=" \o c)
                 /\ skip' = TRUE /\ nrej' = nrej + 1
-                /\ objs' = cur /\ odeal' = dl
+                /\ objs' = cur /\ odeal' = dl /\ seen' = IF fresh THEN {} ELSE seen
      ELSE IF e.ev = "trick" THEN
         LET s0 == P!InitPlay("plain", NoSeat, [s \in Seats |-> {}], e.trump, e.decl)
             s4 == FourPlays(s0, e.cards)
@@ -111,10 +121,10 @@ Consume ==
             c  == AllFails(Observed(e, s4)
                            \o << <<"MODEL-LAW", s4.leader = w /\ s4.taken[Side(w)] = 1>> >>)
         IN IF c = "" THEN /\ skip' = FALSE /\ nrej' = nrej
-                          /\ objs' = cur /\ UNCHANGED odeal
+                          /\ objs' = cur /\ UNCHANGED <<odeal, seen>>
            ELSE /\ Reject(e.tid, i, "trick:o=plain:fail=" \o c)
                 /\ skip' = TRUE /\ nrej' = nrej + 1 /\ objs' = cur
-                /\ UNCHANGED odeal
+                /\ UNCHANGED <<odeal, seen>>
      ELSE IF e.ev = "avail" /\ e.kind = "static" THEN
         LET exp == LawPlayable(SetOf(e.hand), e.led)
             c == AllFails(<< <<"result", e.res = "ok">>,
@@ -126,21 +136,26 @@ Consume ==
         LET live == {o \in 0..5 : ~IsNone(cur[o])}
             c == AllFails(<< <<"replicas-agree",
                                \A a, b \in live : P!Public(cur[a]) = P!Public(cur[b])>> >>)
-        IN IF c = "" THEN Good(cur) ELSE Bad(e, "agree:o=obs:fail=" \o c)
+        IN IF c = "" THEN Good(cur) ELSE Soft(e, "agree:o=obs:fail=" \o c, {"agree"}, cur)
      ELSE
         LET s == cur[e.o] IN
         IF e.ev = "play" THEN
            LET r == IF e.via = "raw"
                     THEN [st |-> P!PlayCard(s, e.card), res |-> "ok", why |-> ""]
                     ELSE P!PStep(s, e.seat, e.card)
-               c == AllFails(<< <<"result", e.res = r.res>> >>
+               checks == << <<"result", e.res = r.res>> >>
                              \o (IF IsSame(e) THEN << <<"unchanged", r.st = s>> >>
                                  ELSE Observed(e, r.st))
                              \o (IF IsSame(e) THEN <<>>
-                                 ELSE << <<"MODEL-LAW", LawOK(r.st, odeal)>> >>))
+                                 ELSE << <<"MODEL-LAW", LawOK(r.st, odeal)>> >>)
+               c == AllFails(checks)
+               txt == "play:o=" \o s.mode \o ":exp=" \o r.res \o ":why=" \o r.why
+                          \o ":got=" \o e.res \o ":fail=" \o c
            IN IF c = "" THEN Good([cur EXCEPT ![e.o] = r.st])
-              ELSE Bad(e, "play:o=" \o s.mode \o ":exp=" \o r.res \o ":why=" \o r.why
-                          \o ":got=" \o e.res \o ":fail=" \o c)
+              ELSE IF e.res = r.res
+                   THEN Soft(e, txt, {s.mode \o "." \o x : x \in FailSet(checks)},
+                             [cur EXCEPT ![e.o] = r.st])
+              ELSE Bad(e, txt)
         ELSE IF e.ev = "setdummy" THEN
            LET s1 == P!SetDummy(s, SetOf(e.hand))
                c == AllFails(Observed(e, s1))
@@ -157,20 +172,21 @@ Consume ==
                                 <<"playable", (~raises /\ e.res = "ok") => SetOf(e.out) = exp>>,
                                 <<"MODEL-LAW", exp = P!CurrentAvailable(s, hand)>> >>)
            IN IF c = "" THEN Good(cur)
-              ELSE Bad(e, "avail:o=" \o s.mode \o ":kind=" \o e.kind \o ":fail=" \o c)
+              ELSE Soft(e, "avail:o=" \o s.mode \o ":kind=" \o e.kind \o ":fail=" \o c,
+                        {"avail." \o s.mode \o "." \o e.kind}, cur)
         ELSE IF e.ev = "choose" THEN
            LET exp == LawPlayable(SetOf(e.hand), LawLed(P!Plays(s)))
                c == AllFails(<< <<"result", e.res = "ok">>,
                                 <<"choice-playable", e.res = "ok" => e.out \in exp>> >>)
            IN IF c = "" THEN Good(cur)
-              ELSE Bad(e, "choose:o=" \o s.mode \o ":fail=" \o c)
+              ELSE Soft(e, "choose:o=" \o s.mode \o ":fail=" \o c, {"choose." \o s.mode}, cur)
         ELSE Bad(e, "unknown-event")
 
 Done ==
   /\ i = NTrace + 1
   /\ Finish(NTrace, nrej)
   /\ i' = i + 1
-  /\ UNCHANGED <<m, obs, deal, ores, skip, nrej, objs, odeal>>
+  /\ UNCHANGED <<m, obs, deal, ores, skip, nrej, objs, odeal, seen>>
 
 TNext == Consume \/ Done
 TSpec == TInit /\ [][TNext]_tvars
